@@ -361,6 +361,28 @@ func (c *connectionRequest) checkServer(server RegisteredServer) (s ConnectionSt
 	p := c.player
 	p.mu.RLock()
 	defer p.mu.RUnlock()
+	return c.checkServerLocked(server)
+}
+
+// checkServerAndSetInFlight claims the in-flight slot for conn if the
+// server check passes, atomically, so that two concurrent requests can not
+// both pass the check before either has claimed the slot.
+func (c *connectionRequest) checkServerAndSetInFlight(
+	server RegisteredServer,
+	conn *serverConnection,
+) (s ConnectionStatus, ok bool) {
+	p := c.player
+	p.mu.Lock()
+	defer p.mu.Unlock()
+	if s, ok = c.checkServerLocked(server); ok {
+		p.connInFlight = conn
+	}
+	return s, ok
+}
+
+// the caller must hold c.player.mu
+func (c *connectionRequest) checkServerLocked(server RegisteredServer) (s ConnectionStatus, ok bool) {
+	p := c.player
 	if p.connInFlight != nil || (p.connectedServer_ != nil &&
 		!p.connectedServer_.completedJoin.Load()) {
 		return InProgressConnectionStatus, false
@@ -402,7 +424,10 @@ func (c *connectionRequest) internalConnect(ctx context.Context) (result *connec
 	}
 
 	conn := newServerConnection(server, c.previousServer, c.player)
-	c.player.setInFlightConnection(conn)
+	status, ok = c.checkServerAndSetInFlight(newDest, conn)
+	if !ok {
+		return plainConnectionResult(status, newDest), nil
+	}
 	defer c.resetIfInFlightIs(conn)
 	return conn.connect(ctx)
 }
